@@ -44,7 +44,7 @@ def run(rep, tier, seed):
         rep.cov["bounded_exhaustive_scripts"] = len(ex)
         scripts += ex
     for i in range(6 if tier == "quick" else 100):
-        scripts.append(sessions.full_dir_session(rng, "root"))
+        scripts.append(sessions.full_dir_session(rng, "root" if i % 3 else "chain"))
     judged = sessions.run_judged(scripts, flags=("tree", "infos"), shards=16)
     nospace_judged = 0
     for jd in judged:
